@@ -23,7 +23,7 @@ Implicit Types c : sconn.
 Definition has_panic : Prop := exists d n b, dec_field d n b = DPanic hstate.
 
 (* the codes a GOAWAY may carry, by origin *)
-Definition gcode (pc : option N) (code : N) : Prop := In code sl_codes \/ code = c_NoError \/ pc = Some code.
+Definition gcode (pc : option N) (code : N) : Prop := In code sl_codes \/ pc = Some code.
 
 (* one new output item of a move from a to b *)
 Definition new_ok (G : N -> Prop) (a b : sconn) (x : outev) : Prop :=
@@ -110,7 +110,7 @@ Proof.
   intros M. destruct M.
   - apply delta_same; reflexivity.
   - eapply delta_one; [reflexivity | | reflexivity | reflexivity]. right. right. right. right. right. left. eauto.
-  - apply delta_goaway. destruct H0 as [-> | ->]; [left; in_codes | right; right; reflexivity].
+  - apply delta_goaway. destruct H0 as [-> | ->]; [left; in_codes | right; reflexivity].
   - eapply delta_one; [reflexivity | | reflexivity | reflexivity]. right. right. right. right. right. left. eauto.
   - apply delta_same; reflexivity.
   - apply delta_same; reflexivity.
@@ -121,7 +121,7 @@ Proof.
     + right. left. eauto.
     + left. assumption.
   - (* idle *)
-    assert (D : delta_ok (gcode pc) c (write_goaway c 0 c_NoError)) by (apply delta_goaway; right; left; reflexivity).
+    assert (D : delta_ok (gcode pc) c (write_goaway c 0 c_NoError)) by (apply delta_goaway; right; assumption).
     destruct D as [(l & E & F) R]. split; [|exact R]. exists l. split; [exact E | exact F].
   - apply delta_same; reflexivity.
   - apply delta_same; reflexivity.
